@@ -1023,7 +1023,15 @@ class ChannelFactory:
         if item is not None:
             callback, endmarker, _strconfig = item
             if endmarker is not NO_ENDMARKER_WANTED:
-                callback(endmarker)
+                try:
+                    callback(endmarker)
+                except Exception as exc:
+                    # the channel is gone already, there is nobody to tell but
+                    # the log: a failing callback must not take down the
+                    # receiver thread (and with it every other channel and the
+                    # termination of a worker whose connection was lost)
+                    self.gateway._trace("exception during endmarker callback: %s" % exc)
+                    RemoteError(self.gateway._geterrortext(exc)).warn()
 
     def _local_close(self, id: int, remoteerror=None, sendonly: bool = False) -> None:
         channel = self._channels.get(id)
